@@ -2,7 +2,7 @@
    Statements only; proofs in SigP.GorillaProofs / SigP.TsidProofs. *)
 From SigM Require Import Base Bits Gorilla Tsid.
 From SigG Require Import Gen.
-From SigP Require Import BaseProofs BitsProofs GorillaProofs TsidProofs GenC08 GenC08bw.
+From SigP Require Import BaseProofs BitsProofs GorillaProofs TsidProofs GenC08 GenC08bw GenC08all.
 Open Scope Z_scope.
 
 (* The series codec (compressor.go -> bytes -> decompressor.go) returns every point with the
@@ -140,3 +140,26 @@ Theorem C08_code_bitwriter_is_pack : forall evs : list (Z * list Z),
   out_bytes (snd (bw_run (0, 8) (evs ++ [(2, [0])]))) = pack (evs_bits evs).
 Proof. exact gen_bitwriter_is_pack. Qed.
 Print Assumptions C08_code_bitwriter_is_pack.
+
+(* ==== from the Go source to the stored bytes ====
+   gen_series_bytes hdr pts: the calls the regenerated compressor makes for the series (header, every point through
+   gen_Compress, gen_finish) are executed by the regenerated bit writer; the result is the byte string handed to the io.Writer. *)
+Theorem C08_code_series_bytes_is_encode : forall (hdr : N) (pts : list (N * N)),
+  (hdr < 2 ^ 32)%N -> Forall (fun p => (fst p < 2 ^ 32)%N /\ (snd p < 2 ^ 64)%N) pts ->
+  gen_series_bytes hdr pts = encode hdr pts.
+Proof. exact gen_series_bytes_is_encode. Qed.
+Print Assumptions C08_code_series_bytes_is_encode.
+
+(* the bytes written by the code as it is now decode to the series that went in, for every series *)
+Theorem C08_code_series_bytes_roundtrip : forall (hdr : N) (pts : list (N * N)),
+  series_ok hdr pts -> (hdr < 2 ^ 32)%N -> Forall (fun p => (fst p < 2 ^ 32)%N /\ (snd p < 2 ^ 64)%N) pts ->
+  decode (gen_series_bytes hdr pts) = pts.
+Proof. exact gen_series_bytes_roundtrip. Qed.
+Print Assumptions C08_code_series_bytes_roundtrip.
+
+(* every call the compressor makes on the bit writer is well-formed (a bit, or a field of 0..64 bits of a uint64) *)
+Theorem C08_code_compressor_calls_wellformed : forall (s : est) (t v : N),
+  est_ok s -> (t < 2 ^ 32)%N -> (v < 2 ^ 64)%N ->
+  let '(_, _, evs) := gen_Compress (abs_est s) (Z.of_N t) (Z.of_N v) in Forall ev_wf evs.
+Proof. exact gen_Compress_events_wf. Qed.
+Print Assumptions C08_code_compressor_calls_wellformed.
